@@ -232,7 +232,7 @@ def gen_dataset(r, task: str) -> Tuple[D.SceneSpec, Dict[str, Any]]:
     for ch, mod in r.sample([("CAM_FRONT", "camera"), ("CAM_BACK_LEFT", "camera"), ("RADAR_FRONT", "radar"), ("RADAR_BACK", "radar"), ("CAM_TRAFFIC_LIGHT_NEAR", "camera")], r.randint(0, 3)):
         extra.append((ch, mod, (r.uniform(-2, 2), r.uniform(-1, 1), r.uniform(0, 2)), rand_quat(r, False)))
     raw = r.random() < 0.3
-    spec = D.SceneSpec(samples=samples, lidar_channel=r.choice(["LIDAR_TOP", "LIDAR_CONCAT"]), extra_sensors=extra, vis_style=vis_style, categories=sorted(set(cats)) if r.random() < 0.5 else None, raw_files=raw, record_stamp_offset_us=r.choice([0, 0, 37_000, 1]), instance_names=r.random() < 0.4, sensor_ego_offset=(r.uniform(-0.6, 0.6), r.uniform(-0.3, 0.3), 0.0) if (extra and r.random() < 0.5) else None)
+    spec = D.SceneSpec(samples=samples, lidar_channel=r.choice(["LIDAR_TOP", "LIDAR_CONCAT"]), extra_sensors=extra, vis_style=vis_style, categories=sorted(set(cats)) if r.random() < 0.5 else None, raw_files=raw, record_stamp_offset_us=r.choice([0, 0, 37_000, 1]), instance_names=r.random() < 0.4, scene_starts=(0,) if (n < 2 or r.random() < 0.7) else tuple(sorted({0, r.randrange(1, n)} | ({r.randrange(1, n)} if r.random() < 0.3 else set()))), sensor_ego_offset=(r.uniform(-0.6, 0.6), r.uniform(-0.3, 0.3), 0.0) if (extra and r.random() < 0.5) else None)
     info = dict(n_samples=n, n_inst=n_inst, vis_style=vis_style, lidar=spec.lidar_channel, n_sensors=1 + len(extra), disappearing=disappearing, unregistered=any(a.category in REGISTERED_OR_CASE for s in samples for a in s.anns), far=far)
     return spec, info
 
